@@ -52,7 +52,7 @@ def build_index(lexicon, nseg, freqs=None):
             n = (freqs or {}).get(term, 1)
             w.add_document(k="%s" % term, t=[term] * n)
         if not part:
-            w.add_document(k="", t=["zzzzzz"])
+            w.add_document(k="")  # a segment without any term in the field
         w.commit(merge=False)
     return ix
 
@@ -78,7 +78,7 @@ def check_within(out, lexicon, readers, w, d, p, ctx):
         res[name] = gs
         gs_lex = gs & set(lexicon) | (gs - set(lexicon))
         missing = lo - gs
-        extra = gs - hi - {"zzzzzz"}
+        extra = gs - hi
         if missing:
             out.fail("c19.terms_within_missing:%s" % name, dict(ctx, word=w, d=d, p=p, missing=sorted(missing)[:6]))
         if extra:
